@@ -17,7 +17,7 @@ PROP = {
     "residue": "",
     "correspondence_only": ["order: List.Order + sort.Sort is modelled for at most 12 elements (where Go's pdqsort is the insertion sort) in Run/C14Run.v order_model and compared case by case; no theorem about it: its output is judged by the checker order_allowed (permutation + no inversion w.r.t. the exact order, error iff two elements are incomparable) and by the same law on the implementation's own < answers",
                             "switch: the case loop of GenerateFunc is modelled in Run/C14Run.v (switch_model over equal_fg); the theorem states only that equal_fg is veq",
-                            "representation independence of = and ~ (lists eager/lazy/append/concat, maps listmap/real/put) is observed on the pool, not proved (C09/C13)"],
+                            "representation independence: no theorem (the model's lists and maps are abstract). Run-level specification: every pair is also evaluated with the lists of both operands (down to nesting depth 2) in each of 24 un-evaluated representations rebuilt per evaluation (accept, accept dropping items, skip, top n = / > available over sized and unsized sources, combine, concat, append, map(e->e) over each: size-hint inheritance) - representation x representation exhaustively for the same abstract value on a core of list values, sampled for the others and for different values, plus x ~ l in every representation; the cases handed to Coq carry abstract values only, and the answers must also equal those of the pool's own representations (Go oracle, law 'representation'); the hook-visible state (itemsPresent, SizeIfKnown, hint exact) of every representation is in the distribution"],
 }
 
 MANIFEST = {
